@@ -1556,10 +1556,16 @@ val msg_unpaired : n -> str
 
 val brackets_v : str -> n list -> vresult
 
+val script_validate_req : str -> vresult
+
+val script_validate_inc : str -> vresult
+
 type vkind =
 | VKNone
 | VKBrackets
 | VKScript
+| VKScriptReq
+| VKScriptInc
 
 val mk_config :
   edit_mode -> completion_type -> bool -> nat -> bool -> str list -> str list
